@@ -3,6 +3,7 @@
    the operator table as a typing/denotation theorem, the byte-level
    specification of the string functions, and the correspondence between the
    postfix op sequences the machine runs and expression trees. *)
+From Coq Require Import Permutation.
 From BV Require Import Base Term Expr.
 
 Local Open Scope nat_scope.
@@ -279,60 +280,168 @@ Proof.
   - intros Hin. exists a. split; [exact Hin|apply atom_eqb_refl].
 Qed.
 
+(* [set_add]: append unless present *)
+Lemma set_add_In acc a x : In x (set_add acc a) <-> In x acc \/ x = a.
+Proof.
+  unfold set_add. destruct (set_contains acc a) eqn:E.
+  - apply set_contains_In in E. split; [intro H; left; exact H|].
+    intros [H|H]; [exact H | subst x; exact E].
+  - rewrite in_app_iff. cbn [In]. split; (intros [H|H]; [left; exact H | right]).
+    + destruct H as [H|[]]. symmetry. exact H.
+    + left. symmetry. exact H.
+Qed.
+
+Lemma set_add_NoDup acc a : NoDup acc -> NoDup (set_add acc a).
+Proof.
+  intro Hn. unfold set_add. destruct (set_contains acc a) eqn:E; [exact Hn|].
+  apply (Permutation_NoDup (Permutation_cons_append acc a)).
+  constructor; [|exact Hn]. intro Hin. apply set_contains_In in Hin. congruence.
+Qed.
+
+Lemma fold_set_add_In l : forall acc x, In x (fold_left set_add l acc) <-> In x acc \/ In x l.
+Proof.
+  induction l as [|a l IH]; intros acc x; cbn [fold_left In]; [tauto|].
+  rewrite IH, set_add_In. split; [intros [[H|H]|H] | intros [H|[H|H]]]; auto.
+Qed.
+
+Lemma fold_set_add_NoDup l : forall acc, NoDup acc -> NoDup (fold_left set_add l acc).
+Proof.
+  induction l as [|a l IH]; intros acc Hn; cbn [fold_left]; [exact Hn|].
+  apply IH. apply set_add_NoDup. exact Hn.
+Qed.
+
+Lemma fold_inter_In t l : forall acc x,
+  In x (fold_left (fun acc a => if set_contains t a then set_add acc a else acc) l acc) <->
+  In x acc \/ (In x l /\ set_contains t x = true).
+Proof.
+  induction l as [|a l IH]; intros acc x; cbn [fold_left In]; [tauto|].
+  rewrite IH. destruct (set_contains t a) eqn:E.
+  - rewrite set_add_In. split.
+    + intros [[H|H]|[H1 H2]]; [left; exact H | subst x; right; auto | right; auto].
+    + intros [H|[[H|H] H2]]; [left; left; exact H | left; right; symmetry; exact H | right; auto].
+  - split.
+    + intros [H|[H1 H2]]; [left; exact H | right; auto].
+    + intros [H|[[H|H] H2]]; [left; exact H | subst x; congruence | right; auto].
+Qed.
+
+Lemma fold_inter_NoDup t l : forall acc, NoDup acc ->
+  NoDup (fold_left (fun acc a => if set_contains t a then set_add acc a else acc) l acc).
+Proof.
+  induction l as [|a l IH]; intros acc Hn; cbn [fold_left]; [exact Hn|].
+  apply IH. destruct (set_contains t a); [apply set_add_NoDup|]; exact Hn.
+Qed.
+
+(* membership: as before the repair of the operators *)
 Lemma intersection_spec : forall s t x,
   In x (set_intersect s t) <-> In x s /\ set_contains t x = true.
-Proof. intros s t x. unfold set_intersect. apply filter_In. Qed.
+Proof. intros s t x. unfold set_intersect. rewrite fold_inter_In. cbn [In]. tauto. Qed.
 
 Lemma intersection_In : forall s t x, In x (set_intersect s t) <-> In x s /\ In x t.
 Proof. intros s t x. rewrite intersection_spec, set_contains_In. reflexivity. Qed.
 
+Lemma union_In : forall s t x, In x (set_union s t) <-> In x s \/ In x t.
+Proof. intros s t x. unfold set_union. rewrite !fold_set_add_In. cbn [In]. tauto. Qed.
+
 Lemma union_spec : forall s t x,
   In x (set_union s t) <-> In x s \/ (In x t /\ set_contains s x = false).
 Proof.
-  intros s t x. unfold set_union. rewrite in_app_iff, filter_In, negb_true_iff. reflexivity.
-Qed.
-
-Lemma union_In : forall s t x, In x (set_union s t) <-> In x s \/ In x t.
-Proof.
-  intros s t x. rewrite union_spec. split.
-  - intros [H|[H _]]; [left|right]; exact H.
+  intros s t x. rewrite union_In. split.
   - intros [H|H]; [left; exact H|].
     destruct (set_contains s x) eqn:E.
     + left. apply set_contains_In. exact E.
     + right. split; [exact H|reflexivity].
+  - intros [H|[H _]]; [left|right]; exact H.
 Qed.
 
-(* the union keeps the left operand as is and adds only new elements *)
-Lemma union_prefix : forall s t, exists t', set_union s t = s ++ t' /\ forall x, In x t' -> ~ In x s.
+(* new: the results never repeat an element, whatever the operands *)
+Lemma intersection_NoDup : forall s t, NoDup (set_intersect s t).
+Proof. intros s t. unfold set_intersect. apply fold_inter_NoDup. constructor. Qed.
+
+Lemma union_NoDup : forall s t, NoDup (set_union s t).
+Proof. intros s t. unfold set_union. apply fold_set_add_NoDup. apply fold_set_add_NoDup. constructor. Qed.
+
+(* the union is the concatenation with every repetition dropped *)
+Lemma union_dedup : forall s t, set_union s t = fold_left set_add (s ++ t) [].
+Proof. intros s t. unfold set_union. rewrite fold_left_app. reflexivity. Qed.
+
+Lemma fold_set_add_fresh l : forall acc,
+  exists l', fold_left set_add l acc = acc ++ l' /\ forall x, In x l' -> In x l /\ ~ In x acc.
 Proof.
-  intros s t. eexists. split; [reflexivity|].
-  intros x Hx. apply filter_In in Hx as [_ Hx]. apply negb_true_iff in Hx.
-  intros Hin. apply set_contains_In in Hin. congruence.
+  induction l as [|a l IH]; intros acc; cbn [fold_left].
+  - exists []. split; [rewrite app_nil_r; reflexivity | intros x []].
+  - destruct (IH (set_add acc a)) as [l' [He Hl']]. unfold set_add in *.
+    destruct (set_contains acc a) eqn:E.
+    + exists l'. split; [exact He|]. intros x Hx. destruct (Hl' x Hx) as [H1 H2]. split; [right; exact H1 | exact H2].
+    + exists (a :: l'). split; [rewrite He, <- app_assoc; reflexivity|].
+      intros x [Hx|Hx].
+      * subst x. split; [left; reflexivity|]. intro Hin. apply set_contains_In in Hin. congruence.
+      * destruct (Hl' x Hx) as [H1 H2]. split; [right; exact H1|].
+        intro Hin. apply H2. apply in_or_app. left. exact Hin.
 Qed.
+
+Lemma fold_set_add_NoDup_id l : forall acc, NoDup (acc ++ l) -> fold_left set_add l acc = acc ++ l.
+Proof.
+  induction l as [|a l IH]; intros acc Hn; cbn [fold_left]; [rewrite app_nil_r; reflexivity|].
+  assert (E : set_contains acc a = false).
+  { destruct (set_contains acc a) eqn:E; [|reflexivity]. apply set_contains_In in E.
+    apply NoDup_remove_2 in Hn. exfalso. apply Hn. apply in_or_app. left. exact E. }
+  unfold set_add. rewrite E. rewrite IH; rewrite <- app_assoc; [reflexivity | exact Hn].
+Qed.
+
+(* on a left operand without repetition the union keeps it as is and adds only new elements *)
+Lemma union_prefix : forall s t, NoDup s ->
+  exists t', set_union s t = s ++ t' /\ forall x, In x t' -> In x t /\ ~ In x s.
+Proof.
+  intros s t Hn. unfold set_union. rewrite (fold_set_add_NoDup_id s [] Hn). cbn [app].
+  apply fold_set_add_fresh.
+Qed.
+
+(* the operands may repeat elements, the results do not *)
+Example set_ops_drop_repeats :
+  set_intersect [AInt 1; AInt 1; AInt 2] [AInt 1] = [AInt 1] /\
+  set_intersect [AInt 1; AInt 2; AInt 2] [AInt 1] = [AInt 1] /\
+  set_union [AInt 1] [AInt 1; AInt 1; AInt 2] = [AInt 1; AInt 2] /\
+  set_union [AInt 1] [AInt 1; AInt 2; AInt 2] = [AInt 1; AInt 2] /\
+  set_union [AInt 1; AInt 1] [] = [AInt 1] /\
+  set_intersect [AInt 2; AInt 1; AInt 1] [AInt 1; AInt 2] = [AInt 2; AInt 1].
+Proof. vm_compute. repeat split; reflexivity. Qed.
 
 Lemma set_equal_spec s c :
-  set_equal s c = true <-> length c = length s /\ incl s c.
+  set_equal s c = true <-> length c = length s /\ incl s c /\ incl c s.
 Proof.
-  unfold set_equal. rewrite andb_true_iff, Nat.eqb_eq, forallb_forall. split.
-  - intros [Hl H]. split; [exact Hl|]. intros x Hx. apply set_contains_In. apply H. exact Hx.
-  - intros [Hl H]. split; [exact Hl|]. intros x Hx. apply set_contains_In. apply H. exact Hx.
+  unfold set_equal. rewrite !andb_true_iff, Nat.eqb_eq, !forallb_forall. split.
+  - intros [[Hl H] H']. split; [exact Hl|]. split; intros x Hx; apply set_contains_In.
+    + apply H. exact Hx.
+    + apply H'. exact Hx.
+  - intros [Hl [H H']]. split; [split; [exact Hl|]|]; intros x Hx; apply set_contains_In.
+    + apply H. exact Hx.
+    + apply H'. exact Hx.
 Qed.
 
-(* on duplicate-free operands Set.Equal is extensional equality *)
+(* Set.Equal is "same length and same elements", whether or not elements repeat *)
+Lemma set_equal_ext s c :
+  set_equal s c = true <-> length c = length s /\ (forall x, In x s <-> In x c).
+Proof.
+  rewrite set_equal_spec. split.
+  - intros [Hl [Hi Hi']]. split; [exact Hl|]. intros x. split; [apply Hi | apply Hi'].
+  - intros [Hl H]. split; [exact Hl|]. split; intros x Hx; apply H; exact Hx.
+Qed.
+
+(* kept under its old name: the NoDup hypothesis is no longer needed *)
 Lemma set_equal_nodup s c :
   NoDup s -> set_equal s c = true <-> length c = length s /\ (forall x, In x s <-> In x c).
-Proof.
-  intros Hs. rewrite set_equal_spec. split.
-  - intros [Hl Hi]. split; [exact Hl|]. intros x. split; [apply Hi|].
-    apply (NoDup_length_incl Hs); [lia|exact Hi].
-  - intros [Hl H]. split; [exact Hl|]. intros x Hx. apply H. exact Hx.
-Qed.
+Proof. intros _. apply set_equal_ext. Qed.
 
-(* with repeated elements it is not: the code compares lengths and one inclusion *)
-Example set_equal_not_extensional :
-  set_equal [AInt 1; AInt 1; AInt 2] [AInt 1; AInt 2; AInt 3] = true /\
-  set_equal [AInt 1; AInt 2; AInt 3] [AInt 1; AInt 1; AInt 2] = false.
-Proof. vm_compute. split; reflexivity. Qed.
+(* it is symmetric, also with repeated elements; the length still counts
+   repetitions, so it is finer than extensional equality of the element sets *)
+Example set_equal_repeats :
+  set_equal [AInt 1; AInt 1; AInt 2] [AInt 1; AInt 2; AInt 3] = false /\
+  set_equal [AInt 1; AInt 2; AInt 3] [AInt 1; AInt 1; AInt 2] = false /\
+  set_equal [AInt 1; AInt 1; AInt 2] [AInt 2; AInt 1; AInt 2] = true /\
+  set_equal [AInt 2; AInt 1; AInt 2] [AInt 1; AInt 1; AInt 2] = true /\
+  set_equal [AInt 1; AInt 1] [AInt 1] = false /\
+  set_equal [AInt 1] [AInt 1; AInt 1] = false.
+Proof. vm_compute. repeat split; reflexivity. Qed.
 
 (* ------------------------------------------------------------------ *)
 (* 5. The operator table                                               *)
@@ -930,6 +1039,9 @@ Print Assumptions has_suffix_spec.
 Print Assumptions contains_sub_spec.
 Print Assumptions intersection_spec.
 Print Assumptions union_spec.
+Print Assumptions intersection_NoDup.
+Print Assumptions union_NoDup.
+Print Assumptions union_prefix.
 Print Assumptions set_equal_nodup.
 Print Assumptions ill_typed_is_error.
 Print Assumptions well_typed_result.
